@@ -507,6 +507,13 @@ func TestVerifBatcher(t *testing.T) {
 						b := bound
 						if len(poison) != 1 || poison[0] != -1 {
 							b = ctx.Param("poison_bound", 0) // explicit failure sets: the schedule space is the tagged run's
+							if cf.workers != 1 && len(poison) == 1 && len(consumers) == 1 && !idle {
+								// ... except where two flushes can be in flight at once (no worker limit, or two workers): there
+								// a failing and a succeeding batch of one request finish concurrently, and which reporter comes
+								// last is a matter of the schedule ("reports an error iff one of those batches failed"); one consumer
+								// thread, no idle period (the two-consumer and idle variants keep the default schedule: cost)
+								b = bound
+							}
 						}
 						st := vs.Explore(vs.Opts{Bound: b, Shard: 0, Shards: 1, Expired: ctx.Expired}, c04bBody(c, &o), func(s *vs.Sched, owned bool) bool {
 							sig, what := c04bVerdict(c, &o, s)
